@@ -16,6 +16,6 @@ fi
 [ "$1" = "--" ] && shift
 export GOFLAGS=-mod=mod GOPROXY=off GOSUMDB=off GOTOOLCHAIN=local
 (cd /tmp/scr && go build ./... ) || { echo "DOES NOT COMPILE"; git -C /repo worktree remove --force /tmp/scr; exit 4; }
-/verif/bin/govc func -repo /tmp/scr "$@" 2>&1 | grep -E "FAIL|UNSUPP|clause|unreachable|^==" | cut -c1-250 || true
+${GOVC:-/verif/bin/govc} func -repo /tmp/scr "$@" 2>&1 | grep -E "FAIL|UNSUPP|clause|unreachable|^==" | cut -c1-250 || true
 git -C /repo worktree remove --force /tmp/scr
 rm -f /tmp/scr_orig
